@@ -192,7 +192,7 @@ fn dup_family() -> Vec<Node> {
 pub fn c16(run: &mut Run) -> Stats {
     run.rule = "every alternation of 2-4 arms from a 7-arm menu of (duplicate-)named groups, alone, before \\k<n>, inside a lookbehind and under *; every AST of P-named (named, unnamed and duplicate-named groups, \\k and \\1 references, lookbehind, quantifiers), P-look and P-core up to the size bound x flags x every haystack x every match of find_iter; non-trivial = the pattern has at least one capturing group".into();
     run.assumptions = vec!["captures are compared with the ES2025 reference matcher; the accessor identities are checked on every match".into()];
-    let st = sweep::drive(run, "C16", &["named", "look", "core"], &|sp, th| enumerate::all_hays(&sp.alphabet, if th { sp.hay_thorough } else { sp.hay_quick }), &c16_eval);
+    let st = sweep::drive(run, "C16", &["named", "look", "core", "fail"], &|sp, th| enumerate::all_hays(&sp.alphabet, if th { sp.hay_thorough } else { sp.hay_quick }), &c16_eval);
     let fam = dup_family();
     let hays = enumerate::all_hays(&enumerate::chars("ab"), 3);
     let known = &run.known;
